@@ -563,6 +563,17 @@ def recipe_order(repo: Repo, res: CheckResult) -> None:
         res.add(Finding("C09", "ORDER.class-mro", m.rel, "BaseRetort.__init_subclass__",
                         "; ".join(norm(c.iter) for c in comps),
                         "class recipes must be concatenated in MRO order (subclass providers first)", isub.lineno))
+    # ... for EVERY subclass: the assignment is unconditional (a class without an own recipe still has to merge the recipes
+    # of all its bases: `class App(TimeRetort, MoneyRetort): pass`)
+    stores = [st for st in ast.walk(isub) if isinstance(st, ast.Assign)
+              and any(norm(t) == "cls._full_class_recipe" for t in st.targets)]
+    unconditional = len(stores) == 1 and any(st is stores[0] for st in isub.body) and not any(
+        isinstance(x, ast.Return) and x.lineno < stores[0].lineno for x in ast.walk(isub))
+    if not unconditional:
+        res.add(Finding("C09", "ORDER.class-mro", m.rel, "BaseRetort.__init_subclass__", "class recipe not computed for every subclass",
+                        "`cls._full_class_recipe` must be computed from the MRO for every subclass; when it is skipped (early return, "
+                        "condition) a class that mixes several retort classes inherits the tuple of its FIRST base only and the "
+                        "class recipes of the other bases are lost", isub.lineno))
     # recipe tail of the facade carries the scalar options
     res.count("ORDER.full-recipe-operands", len(ops or []), 4)
 
